@@ -1,4 +1,4 @@
-import Sm9.Proofs.JacobianInst
+import Sm9.Proofs.JacobianInst2
 /-!
 # C15 — Point equality, normalisation and affine conversion respect the group element
 `==` holds exactly when the two values denote the same point of the curve (generic over
@@ -21,6 +21,19 @@ theorem g1_eq_trans (P Q R : G1) (hP : G1.Valid P) (hQ : G1.Valid Q) (hR : G1.Va
     (h1 : P.eq Q = true) (h2 : Q.eq R = true) : P.eq R = true := by
   rw [G1.eq_iff _ _ hP hQ] at h1; rw [G1.eq_iff _ _ hQ hR] at h2
   rw [G1.eq_iff _ _ hP hR, h1, h2]
+theorem g2_eq_iff (P Q : G2) (hP : G2.Valid P) (hQ : G2.Valid Q) : P.eq Q = true ↔ G2.toAff P = G2.toAff Q :=
+  G2.eq_iff P Q hP hQ
+theorem g2_eq_symm (P Q : G2) (hP : G2.Valid P) (hQ : G2.Valid Q) : P.eq Q = true ↔ Q.eq P = true := by
+  rw [G2.eq_iff P Q hP hQ, G2.eq_iff Q P hQ hP, eq_comm]
+theorem g2_eq_trans (P Q R : G2) (hP : G2.Valid P) (hQ : G2.Valid Q) (hR : G2.Valid R)
+    (h1 : P.eq Q = true) (h2 : Q.eq R = true) : P.eq R = true := by
+  rw [G2.eq_iff _ _ hP hQ] at h1; rw [G2.eq_iff _ _ hQ hR] at h2
+  rw [G2.eq_iff _ _ hP hR, h1, h2]
+theorem g2_to_affine_spec (P : G2) :
+    P.to_affine = if P.z = 0 then none else some ⟨P.x / P.z ^ 2, P.y / P.z ^ 3⟩ := G2.to_affine_spec P
+theorem g2_normalize_spec (P : G2) (hP : G2.Valid P) :
+    G2.toAff (Api.normalize P) = G2.toAff P ∧ (P.z ≠ 0 → (Api.normalize P).z = 1) ∧
+    (P.z = 0 → Api.normalize P = P) ∧ G2.Valid (Api.normalize P) := G2.normalize_spec P hP
 theorem g1_eq_refl (p : G1) : p.eq p = true := G1.eq_refl p
 theorem g2_eq_refl (p : G2) : p.eq p = true := G2.eq_refl p
 /-- P and −P are different unless P is the identity (no 2-torsion) -/
